@@ -47,7 +47,14 @@ Inductive calg := CExc | CExcWC | CInc.            (* exc-c14n, exc-c14n#WithCom
 Inductive talg := TEnv | TExc | TExcWC | TInc.     (* enveloped-signature and the three above as transforms *)
 (* a second ds:Signature child of the signed element (a filled-in signature in profile form that does
    not verify), placed before or after the one described by the record *)
-Inductive extra := XNone | XBefore | XAfter.
+Inductive extra :=
+  | XNone | XBefore | XAfter
+  (* round 6: no second ds:Signature CHILD, but a DESCENDANT of the signed element (an assertion parked in saml:Advice,
+     SubjectConfirmationData, an AttributeValue, samlp:Extensions, StatusDetail; for a Response also its own signed
+     assertion) carries a complete ds:Signature of its own, in profile form, made by key k over that descendant
+     (bad: altered afterwards).  ahead: it precedes the element's Signature child in document order (the child then is
+     not in the place the schema gives it, right after Issuer) *)
+  | XIn (ahead : bool) (k : key) (bad : bool).
 Record shape := {
   refs : list rtarget;    (* the ds:Reference elements of SignedInfo, in order *)
   c14n : calg;            (* CanonicalizationMethod *)
@@ -150,7 +157,8 @@ Definition validators (s : shape) : bool :=
   && the_enveloped_signature_transform_is_defined && negb (obj s).
 
 (* _is_the_only_signature_child: exactly one ds:Signature child, ahead of any other ds:Signature *)
-Definition only_signature_child (s : shape) : bool := match xsig s with XNone => true | _ => false end.
+Definition only_signature_child (s : shape) : bool :=
+  match xsig s with XNone => true | XIn ahead _ _ => negb ahead | XBefore | XAfter => false end.
 
 Inductive gres := GPass | GReject | GCrash.
 Definition profile_gate (s : shape) : gres :=
@@ -175,6 +183,42 @@ Definition check_signature (only_md : bool) (issuer : who) (schema_ok : bool) (g
           the key and on the integrity of digest and signature value *)
        | GPass => if existsb (xmlsec_verify g) certs then VOk else VSigErr
        end.
+
+(* ---- round 6: WHICH ds:Signature the engine verifies -----------------------------------------------------
+   xmlsec1 --node-id X (and the stand-in) verifies the FIRST ds:Signature in document order at or below X; the
+   validators above read the Signature CHILD the parser kept.  _is_the_only_signature_child is what ties the two. *)
+Inductive esig :=
+  | EOwn                              (* the Signature child described by the record *)
+  | EFiller                           (* the second Signature child (never verifies) *)
+  | ENested (k : key) (bad : bool).   (* the signature of a descendant *)
+Definition engine_target (s : shape) : esig :=
+  match xsig s with
+  | XNone | XAfter => EOwn
+  | XBefore => EFiller
+  | XIn true k bad => ENested k bad
+  | XIn false _ _ => EOwn
+  end.
+(* the verdict of the engine for one certificate: on the signature it meets first.  A descendant's signature refers
+   to the descendant; the engine resolves that (when the descendant is of the element type whose ID attribute is
+   registered: an assertion inside an assertion) and reports on it *)
+Definition engine_verify (g : sgn) (cert : key) : bool :=
+  match engine_target (shp g) with
+  | EOwn => xmlsec_verify g cert
+  | EFiller => false
+  | ENested k bad => key_eqb cert k && negb bad
+  end.
+(* _check_signature with the engine spelled out and the tie as a parameter (the code's: only_signature_child) *)
+Definition check_signature_with (tie : shape -> bool) (only_md : bool) (issuer : who) (schema_ok : bool) (g : sgn) : vres :=
+  let certs := md_certs issuer in
+  let certs := if is_nil certs && negb only_md then instance_certs g else certs in
+  if is_nil certs then VMissingKey
+  else if negb schema_ok then VSigErr
+  else if crashes (parsed (shp g)) then VCrash
+  else if negb (validators (parsed (shp g))) then VSigErr
+  else if negb (tie (shp g)) then VSigErr
+  else if existsb (engine_verify g) certs then VOk else VSigErr.
+(* the tie of the seeded change C01-a: exactly one Signature CHILD, wherever it stands *)
+Definition one_signature_child (s : shape) : bool := match xsig s with XNone | XIn _ _ _ => true | XBefore | XAfter => false end.
 
 (* what the code finds when it looks at one element *)
 Inductive sres := SAbsent | SOk | SMissingKey | SSigErr | SCrash.
@@ -529,3 +573,75 @@ Definition parse_mmsg_v0 : config -> mmsg -> bool := parse_mmsg_with schedule_v0
 Definition sp_run_mm (c : config) (ms : list mmsg) : list bool := map (parse_mmsg c) ms.
 Definition client_run_mm (k : client) (ms : list mmsg) : list bool :=
   match read_config k with Some c => sp_run_mm c ms | None => map (fun _ => false) ms end.
+
+(* ---- round 6: which private keys can open an EncryptedAssertion -----------------------------------------
+   The EncryptedKey of an EncryptedAssertion is made for ONE certificate.  The SP holds the private keys of its
+   configuration (encryption_keypairs / key_file) and, per request, the keys the application hands to
+   parse_authn_request_response(.., outstanding_certs={request id: {"key", "cert"} | [such dicts]}) - the key pair
+   whose certificate went out with the AuthnRequest.  Entity._parse_response: `keys` = the "key" values of
+   outstanding_certs[response.in_response_to] (no such entry, an empty dict, no argument: None); BOTH passes of the
+   assertion check call response.verify(keys); SecurityContext.decrypt tries those, then the configured ones. *)
+Inductive dkey :=
+  | DConfigured      (* the SP's configured encryption key pair *)
+  | DRequest         (* the key pair made for this request *)
+  | DRequest2        (* another per-request key pair *)
+  | DForeign.        (* somebody else's *)
+Inductive ocerts :=
+  | OAbsent                   (* outstanding_certs not given *)
+  | OEmpty                    (* {} *)
+  | OElse (ks : list dkey)    (* an entry under another request id only *)
+  | OThis (ks : list dkey).   (* the entry of the request the Response answers: these private keys *)
+Definition dkey_eqb (a b : dkey) : bool :=
+  match a, b with DConfigured, DConfigured | DRequest, DRequest | DRequest2, DRequest2 | DForeign, DForeign => true | _, _ => false end.
+Definition request_keys (o : ocerts) : list dkey := match o with OThis ks => ks | OAbsent | OEmpty | OElse _ => [] end.
+(* key_files = itertools.chain(key_file, self.enc_key_files) *)
+Definition keys_tried (ks : list dkey) : list dkey := ks ++ [DConfigured].
+Definition opens (ks : list dkey) (rcpt : dkey) : bool := existsb (dkey_eqb rcpt) (keys_tried ks).
+
+(* a Response whose EncryptedAssertions are all made for the certificate x_rcpt, consumed with x_oc *)
+Record xmsg := { xm : mmsg; x_rcpt : dkey; x_oc : ocerts }.
+Definition plain_msg (mm : mmsg) : xmsg := {| xm := mm; x_rcpt := DConfigured; x_oc := OAbsent |}.
+Definition with_asl (mm : mmsg) (l : list asn) : mmsg :=
+  {| mm_rwho := mm_rwho mm; mm_rs := mm_rs mm; mm_asl := l; mm_bind := mm_bind mm |}.
+(* parse_assertion with keys ks: a DecryptError ends the decryption loop (`continue` with decr_text unchanged), the
+   EncryptedAssertions stay closed and are passed over; the plain assertions are walked as ever *)
+Definition walked (ks : list dkey) (x : xmsg) : mmsg :=
+  if opens ks (x_rcpt x) then xm x else with_asl (xm x) (plain_of (mm_asl (xm x))).
+Definition nonempty_l {A} (l : list A) : bool := match l with [] => false | _ => true end.
+
+(* the verdict of Entity._parse_response for a list of assertions `mm` that is walked, with the number rule's verdict
+   given from outside (parse_mmsg is the instance okc = count_ok of the same list) *)
+Definition parse_walk (okc : bool) (c : config) (mm : mmsg) : bool :=
+  let wr := resolve (c_wr c) want_response_signed_default in
+  let wa := resolve (c_wa c) want_assertions_signed_default in
+  let wor := resolve (c_wor c) want_assertions_or_response_signed_default in
+  let only_md := resolve (c_only c) only_use_keys_in_metadata_default in
+  core_gen wr wa wor
+           (look only_md (mm_rwho mm) (mm_schema_ok mm) (mm_rs mm))
+           (fun q => verify_all q okc (schedule only_md mm))
+           (mm_bind mm).
+
+(* Entity._parse_response over response.verify(keys) with the keys each pass is given: kf for the forced pass, kr for
+   the retry (core_gen calls `verify true` for the forced pass only, `verify false` for the retry only).  The number
+   rule counts what the Response CARRIES.  A pass that walks nothing ends without exception and without assertion:
+   no identity (name_id None, ava {}, nothing cached) - for the observable "identity" that is a failed pass. *)
+Definition parse_xmsg_keys (kf kr : list dkey) (c : config) (x : xmsg) : bool :=
+  let wr := resolve (c_wr c) want_response_signed_default in
+  let wa := resolve (c_wa c) want_assertions_signed_default in
+  let wor := resolve (c_wor c) want_assertions_or_response_signed_default in
+  let only_md := resolve (c_only c) only_use_keys_in_metadata_default in
+  let mm := xm x in
+  let V ks q := verify_all q (count_ok (mm_asl mm) && nonempty_l (mm_asl (walked ks x))) (schedule only_md (walked ks x)) in
+  core_gen wr wa wor
+           (look only_md (mm_rwho mm) (mm_schema_ok mm) (mm_rs mm))
+           (fun q => if q then V kf true else V kr false)
+           (mm_bind mm).
+(* the code as it is: both passes get the keys of the request *)
+Definition parse_xmsg (c : config) (x : xmsg) : bool :=
+  parse_xmsg_keys (request_keys (x_oc x)) (request_keys (x_oc x)) c x.
+(* the seeded change C01-b, for the record: the retry forgets them *)
+Definition parse_xmsg_retry_bare (c : config) (x : xmsg) : bool := parse_xmsg_keys (request_keys (x_oc x)) [] c x.
+
+Definition sp_run_x (c : config) (xs : list xmsg) : list bool := map (parse_xmsg c) xs.
+Definition client_run_x (k : client) (xs : list xmsg) : list bool :=
+  match read_config k with Some c => sp_run_x c xs | None => map (fun _ => false) xs end.
